@@ -297,6 +297,9 @@ class DefaultLayout(_BaseLayout[_MaildirT]):
                     dest_elem = dest_subdir + elem[len(subdir):]
                     dest_elem_path = os.path.join(self._path, dest_elem)
                     renames.append((elem_path, dest_elem_path))
+        if not renames:
+            # the source has been removed or renamed away meanwhile
+            raise FileNotFoundError(subdir)
         # refuse before anything has been moved: renaming onto an existing
         # folder fails with ENOTEMPTY, or replaces it when it is empty
         for elem_path, dest_elem_path in renames:
